@@ -235,3 +235,30 @@ class HeteroscedasticProblem:
         if sd.ndim == 1:
             sd = sd[:, None]  # one level per design
         return f + self.rs.normal(size=f.shape) * sd  # (design, objective) levels
+
+
+class ScriptedProblem:
+    """Observations are derived so that the running mean of design i after its k-th sample equals centres[k-1][i]
+    (the last entry persists).  For directed multi-round scenarios with the bandit algorithms."""
+
+    def __init__(self, dataset, centres):
+        self.dataset = dataset
+        self.centres = np.asarray(centres, float)  # [round][design][objective]
+        self.K, self.m = dataset.out_data.shape
+        self.sums = np.zeros((self.K, self.m))
+        self.cnt = np.zeros(self.K, int)
+        self.in_dim = dataset.in_data.shape[1]
+
+    def evaluate(self, x, noisy=True):
+        x = np.atleast_2d(np.asarray(x, float))
+        d2 = ((x[:, None, :] - self.dataset.in_data[None, :, :]) ** 2).sum(-1)
+        idx = d2.argmin(1)
+        out = np.zeros((len(idx), self.m))
+        for row, i in enumerate(idx):
+            k = self.cnt[i] + 1
+            target = self.centres[min(k - 1, len(self.centres) - 1)][i]
+            y = target * k - self.sums[i]
+            self.sums[i] += y
+            self.cnt[i] = k
+            out[row] = y
+        return out
